@@ -126,6 +126,12 @@ __CPROVER_ensures(IS_RC(v) ==> HDR(v)->ref_count == __verif_rc0 + 1u);
 #define REL_KID_RC(v) (REL_HAS_KID(v) && IS_RC(REL_KID(v)))
 #endif
 
+/* loop invariants of release_*: until the loop reaches the ghost index, the child there is as it was on entry
+ * (releases of the OTHER children are lvl-0 calls: they assign nothing in this proof; in the real heap that they do not
+ * free this child is the census invariant ref_count >= indeg - glue, see the header comment) */
+#define HEAP_KID_UNTOUCHED(kid) (__CPROVER_rw_ok((kid).as.obj, sizeof(VmHeapHeader)) && HDR(kid)->obj_type == (kid).tag && \
+                                 HDR(kid)->ref_count == __verif_krc0)
+
 /* the heap descriptor: intern table valid for intern_capacity entries (vm_release of a string walks it) */
 #define HEAP_INTERN_MAX 1024u
 #define HEAP_OK(h) ((h)->intern_capacity >= 1 && (h)->intern_capacity <= HEAP_INTERN_MAX && (h)->intern_count <= (h)->intern_capacity)
